@@ -1020,6 +1020,20 @@ def _load_flow_json():
 _load_flow_json()
 
 
+def class_shape(node: ast.ClassDef) -> list:
+	"""the members of a class as far as they decide what an instance is: decorators and bases, every non-method statement as it is (attrs fields with
+	their defaults and options), every method by decorators and name (its body is pinned or translated elsewhere, or does not matter)"""
+	out = ['@' + ast.unparse(d) for d in node.decorator_list] + ['bases: ' + ', '.join(ast.unparse(b) for b in node.bases)]
+	for st in node.body:
+		if isinstance(st, ast.Expr) and isinstance(st.value, ast.Constant) and isinstance(st.value.value, str):
+			continue
+		if isinstance(st, ast.FunctionDef):
+			out.append(' '.join(['@' + ast.unparse(d) for d in st.decorator_list] + [f'def {st.name}']))
+		else:
+			out.append(ast.unparse(st))
+	return out
+
+
 def flow_facts(repo: Path, out_dir: Path, report: dict):
 	"""Gen/PyTreeFlow.lean, PyArchiveReader.lean, PyLoadFlow.lean: one Boolean per pinned function (its statements are exactly the expected ones)"""
 	b = lambda x: 'true' if x else 'false'
@@ -1037,7 +1051,10 @@ def flow_facts(repo: Path, out_dir: Path, report: dict):
 					if node is None:
 						break
 					body = node.body
-				ok = isinstance(node, ast.FunctionDef) and [ast.unparse(x) for x in _body(node)] == want
+				if isinstance(node, ast.ClassDef):
+					ok = class_shape(node) == want      # a class is pinned by its shape: bases, fields with their defaults, method names with decorators
+				else:
+					ok = isinstance(node, ast.FunctionDef) and [ast.unparse(x) for x in _body(node)] == want
 			except (SyntaxError, OSError):
 				ok = False
 			lines.append(f'/-- {doc} -/\ndef py{module[2:]}_{name} : Bool := {b(ok)}\n')
